@@ -203,16 +203,13 @@ theorem swapCond_scale (hc : 0 < c) (s : St) : swapCond (scaleSt c s) = swapCond
 /-- the state `swapRow` hands to `find_trough` -/
 def swapPre (s : St) : St := { s with pv := s.trv, p := s.tr, sgn := invertSign s.trv, arr := invertRow s.real s.trv }
 
-theorem swapRow_eq (s : St) : swapRow s = findTroughRow (swapPre s) >>= fun s2 => pure { s2 with arr := s.real } := rfl
+theorem swapRow_eq (s : St) : swapRow s = findTroughRow (swapPre s) := rfl
 
 theorem swapPre_scale (hc : 0 < c) (s : St) : swapPre (scaleSt c s) = scaleSt c (swapPre s) := by
   simp only [swapPre, scaleSt, invertSign_scale hc, invertRow_scale hc]
 
 theorem swapRow_scale (hc : 0 < c) (s : St) : swapRow (scaleSt c s) = (swapRow s).map (scaleSt c) := by
   rw [swapRow_eq, swapRow_eq, swapPre_scale hc, findTroughRow_scale hc]
-  cases findTroughRow (swapPre s) with
-  | error e => rfl
-  | ok s2 => rfl
 
 theorem swapStep_scale (hc : 0 < c) (s : St) : swapStep (scaleSt c s) = (swapStep s).map (scaleSt c) := by
   unfold swapStep
